@@ -118,9 +118,9 @@ def expected(writeable_struct=True):
     return out
 
 
-def run(ctx):
+def run(ctx, crate="c01x"):
     """returns number of comparisons made"""
-    d, lib, p = e2e.bridge_crate("c01x", BRIDGE)
+    d, lib, p = e2e.bridge_crate(crate, BRIDGE)
     if lib is None:
         ctx.violation("e2e:extra-macro-build", {"broken": "the extra-shapes bridge does not compile with the real macro", "log": p.stderr[-2000:], "lib_rs": BRIDGE}, True)
         return 0
